@@ -4,7 +4,8 @@
    mean, standard deviation coeff" therefore holds exactly as far as the
    generator's standard normal deviates g have mean 0 and deviation 1 - which
    is a fact about numpy's generator, checked statistically by the harness. *)
-From Coq Require Import Reals List Lra ZArith.
+From Coq Require Import Reals List Lra Lia ZArith Bool.
+From Flocq Require Import Core.
 From Verif Require Import C18.Model gen.Pre C18.Run C18.Proofs.
 Import ListNotations.
 Open Scope R_scope.
@@ -55,20 +56,25 @@ Proof.
   f_equal. rewrite <- Rsqr_pow2. apply sqrt_Rsqr_abs.
 Qed.
 
-Definition Rops : ops R := ring_ops R 0 Rplus Rmult Rminus.
+(* np.rint over the reals: nearest integer, ties to even (Flocq's ZnearestE) *)
+Definition rrint (v : R) : R := IZR (ZnearestE v).
+
+Definition Rops : ops R := ring_ops R 0 Rplus Rmult Rminus rrint.
 
 Lemma R_ring : ring_theory 0 1 Rplus Rmult Rminus Ropp (@eq R).
 Proof. exact RTheory. Qed.
 
 Lemma dither_moments_l : forall RS (G : rngm R RS) c ip ax d x r y, axis_ok ax = true ->
+  is_float d = true ->
   out_arr (run Rops G c ip ax dither_prog (Build_arr d x) r) = Some y ->
   let nz := zipw Rminus (a_data y) x in
   let g := g_draw G r (length x) in
   mean nz = c * mean g /\ std nz = Rabs c * std g /\
   (mean g = 0 -> std g = 1 -> mean nz = 0 /\ std nz = Rabs c).
 Proof.
-  intros RS G c ip ax d x r y H E. unfold Rops in E.
-  rewrite (dither_linear_l R 0 1 Rplus Rmult Rminus Ropp R_ring G) in E by assumption.
+  intros RS G c ip ax d x r y H Fd E. unfold Rops in E.
+  rewrite (dither_linear_l R 0 1 Rplus Rmult Rminus Ropp rrint R_ring G) in E by assumption.
+  rewrite rint_float in E by assumption.
   injection E as <-. cbn [a_data].
   rewrite (zipw_sub_add R 0 1 Rplus Rmult Rminus Ropp R_ring)
     by (now rewrite map_length, g_draw_length).
@@ -84,4 +90,59 @@ Proof.
   cbv zeta. assert (M : mean [1; -1; 1; -1] = 0) by (unfold mean; cbn; field).
   split; [exact M|]. unfold std, var. rewrite M. cbn.
   replace ((_ + _) / _) with 1 by field. apply sqrt_1.
+Qed.
+
+(* ---- integer dtypes: the result is rint(x + c*z); for integer samples the
+   returned-minus-input noise is rint(c*z): independent of the signal, and an
+   odd function of the deviate (hence symmetric about 0 like the deviates) *)
+Lemma rrint_shift : forall k n, Rabs (n - rrint n) < / 2 -> rrint (IZR k + n) = IZR k + rrint n.
+Proof.
+  intros k n H. unfold rrint in *. rewrite <- plus_IZR. f_equal.
+  apply Znearest_imp. rewrite plus_IZR.
+  replace (IZR k + n - (IZR k + IZR (ZnearestE n))) with (n - IZR (ZnearestE n)) by ring. exact H.
+Qed.
+
+Lemma rrint_odd : forall n, Rabs (n - rrint n) < / 2 -> rrint (- n) = - rrint n.
+Proof.
+  intros n H. unfold rrint in *. rewrite <- opp_IZR. f_equal.
+  apply Znearest_imp. rewrite opp_IZR.
+  replace (- n - - IZR (ZnearestE n)) with (- (n - IZR (ZnearestE n))) by ring.
+  now rewrite Rabs_Ropp.
+Qed.
+
+Lemma int_noise_lists : forall c ks g, length g = length ks ->
+  Forall (fun z => Rabs (c * z - rrint (c * z)) < / 2) g ->
+  zipw Rminus (map rrint (zipw Rplus (map IZR ks) (map (Rmult c) g))) (map IZR ks) =
+  map (fun z => rrint (c * z)) g.
+Proof.
+  intros c ks. induction ks as [|k ks IH]; intros [|z g] L F; cbn in L; try discriminate; [reflexivity|].
+  inversion F as [|? ? Hz Fg]; subst. cbn [map zipw]. f_equal.
+  - rewrite rrint_shift by exact Hz. ring.
+  - apply IH; [now injection L|exact Fg].
+Qed.
+
+Lemma dither_int_noise_l : forall RS (G : rngm R RS) c ip ax d ks r y, axis_ok ax = true ->
+  is_float d = false ->
+  let g := g_draw G r (length ks) in
+  Forall (fun z => Rabs (c * z - rrint (c * z)) < / 2) g ->
+  out_arr (run Rops G c ip ax dither_prog (Build_arr d (map IZR ks)) r) = Some y ->
+  zipw Rminus (a_data y) (map IZR ks) = map (fun z => rrint (c * z)) g /\
+  (forall z, In z g -> rrint (c * - z) = - rrint (c * z)).
+Proof.
+  intros RS G c ip ax d ks r y H Fd g Fg E. unfold Rops in E.
+  rewrite (dither_linear_l R 0 1 Rplus Rmult Rminus Ropp rrint R_ring G) in E by assumption.
+  injection E as <-. cbn [a_data]. unfold rint_if_int. rewrite Fd. cbn [o_rint ring_ops].
+  rewrite map_length. fold g. split.
+  - apply int_noise_lists; [unfold g; now rewrite g_draw_length|exact Fg].
+  - intros z Hz. rewrite Forall_forall in Fg. specialize (Fg z Hz).
+    replace (c * - z) with (- (c * z)) by ring. now apply rrint_odd.
+Qed.
+
+(* hypotheses satisfiable: deviate 3/4 is not a tie *)
+Example int_noise_satisfiable : Rabs (1 * (3 / 4) - rrint (1 * (3 / 4))) < / 2.
+Proof.
+  assert (E : rrint (1 * (3 / 4)) = 1).
+  { unfold rrint. f_equal. apply Znearest_imp. replace (1 * (3 / 4) - 1) with (- (1 / 4)) by field.
+    rewrite Rabs_Ropp, Rabs_pos_eq; lra. }
+  rewrite E. replace (1 * (3 / 4) - 1) with (- (1 / 4)) by field. rewrite Rabs_Ropp, Rabs_pos_eq; lra.
 Qed.
